@@ -59,7 +59,9 @@ static inline void ABTI_sched_discard_and_free(ABTI_global *p_global,
 
 static inline void ABTI_sched_set_request(ABTI_sched *p_sched, uint32_t req)
 {
+    ABTI_VERIF_BEGIN();
     ABTD_atomic_fetch_or_uint32(&p_sched->request, req);
+    ABTI_VERIF_END(ABTI_VEV_SREQ_OR, p_sched, req, 0);
 }
 
 static inline void ABTI_sched_unset_request(ABTI_sched *p_sched, uint32_t req)
